@@ -35,6 +35,7 @@ type Prog struct {
 	ren       *renameState
 
 	inlineNotes []string // new helper functions read as part of their callers (inline.go)
+	inlinedAway map[*types.Func]bool
 }
 
 // the one package that is allowed to fail to load (cgo header missing in the sandbox)
